@@ -184,6 +184,11 @@ func examinedFuncs(c *Ctx) map[*FuncInfo]bool {
 		return false
 	}
 	for _, o := range c.R.Obs {
+		// rules that only establish that a function keeps OUT of some state (the map's internals, a container) say
+		// nothing about what the function does: they do not make it examined
+		if strings.HasSuffix(o.Rule, "encapsulation") && strings.HasSuffix(o.Instance, "map-fields") || o.Rule == "method-frame" || o.Rule == "dep-closure" {
+			continue
+		}
 		name := o.Construct
 		if look(name) {
 			continue
